@@ -27,13 +27,28 @@ def real_compiled(tbl, um: ser.UidMap):
     from pydiverse.transform._internal.pipe.cache import Cache
     from pydiverse.transform._internal.tree import verbs as V
     nd = tbl._ast
-    if any(isinstance(x, (V.Join, V.Union)) for x in nd.iter_subtree_preorder()):
+    if any(isinstance(x, V.Join) for x in nd.iter_subtree_preorder()):
         return None
     backend = tbl._cache.backend
     if not issubclass(backend, SqlImpl):
         return None
     final_select = Cache.from_ast(nd).selected_cols()
-    _, q, sqa_expr = backend.compile_ast(nd, {col._uuid: 1 for col in final_select})
+    # the select lists handed to compile_query while the AST is compiled (the operands of the unions)
+    log = []
+    orig = backend.__dict__.get("compile_query") or SqlImpl.__dict__["compile_query"]
+
+    def logged(cls, table, query, sqa_expr):
+        log.append(list(query.select))
+        return orig.__func__(cls, table, query, sqa_expr)
+    had_own = "compile_query" in backend.__dict__
+    backend.compile_query = classmethod(logged)
+    try:
+        _, q, sqa_expr = backend.compile_ast(nd, {col._uuid: 1 for col in final_select})
+    finally:
+        if had_own:
+            backend.compile_query = orig
+        else:
+            del backend.compile_query
 
     def ul(us):
         return "[" + "; ".join(um.coq(u) for u in us) + "]"
@@ -48,21 +63,21 @@ def real_compiled(tbl, um: ser.UidMap):
              + f"; q_offset := ({off})%Z; q_summ := {'true' if q.is_summarized else 'false'} |}}")
     labels = "[" + "; ".join(f"({um.coq(u)}, {ser.str_to_coq(sqa_expr[u].name)})" for u in q.select) + "]"
     scope = ul(tbl._cache.cols.keys())
-    return query, labels, scope
+    return query, labels, scope, "[" + "; ".join(ul(x) for x in log) + "]"
 
 
 def evaluate(name, items, shard=150):
-    """items: list of (key, ast_coq, (query, labels, scope)).  Returns {key: (in_domain, [diff codes], flat)}, errors"""
+    """items: list of (key, ast_coq, (query, labels, scope, compile_query log)).  Returns {key: (in_domain, [diff codes], flat)}, errors"""
     CASES.mkdir(parents=True, exist_ok=True)
     files = []
     for s0 in range(0, len(items), shard):
         txt = [HEADER]
         ents = []
-        for j, (key, a, (q, l, sc)) in enumerate(items[s0:s0 + shard]):
+        for j, (key, a, (q, l, sc, lg)) in enumerate(items[s0:s0 + shard]):
             i = s0 + j
             txt.append(f"Definition a{i} : ast := {a}.")
             txt.append(f"Definition q{i} : query := {q}.")
-            ents.append(f"({i}, l3_check a{i} q{i} {l} {sc})")
+            ents.append(f"({i}, l3_check a{i} q{i} {l} {sc} {lg})")
         txt.append("Eval vm_compute in [" + ";\n ".join(ents) + "]%nat.\n")
         f = CASES / f"{name}_l3_{s0 // shard}.v"
         f.write_text("\n".join(txt))
@@ -159,4 +174,5 @@ def evaluate_polars(name, items, shard=120):
 
 
 FIELD = {1: "select", 2: "partition_by", 3: "group_by", 4: "where", 5: "having", 6: "order_by", 7: "limit", 8: "offset",
-         9: "is_summarized", 10: "label of a selected column", 11: "scope (Cache.cols)"}
+         9: "is_summarized", 10: "label of a selected column", 11: "scope (Cache.cols)",
+         12: "select lists of the union operands (compile_query calls)"}
